@@ -95,6 +95,8 @@ type evaluator struct {
 	visit func(fr *evalFrame, call *ssa.Call)
 	// onMapUpdate, when set, is told every m[k] = v the walk passes (key and value as evaluated there)
 	onMapUpdate func(fr *evalFrame, mu *ssa.MapUpdate, k, v interface{}, ok bool)
+	// onStore, when set, is told every store the walk passes (the value as evaluated there)
+	onStore func(fr *evalFrame, st *ssa.Store, v interface{}, ok bool)
 	// counted, when positive, lets inlined helpers that contain one loop with closed-form carried values be
 	// read as tables over the iteration number (runCounted), with this iteration budget
 	counted int
@@ -1107,6 +1109,10 @@ func (ev *evaluator) runFrame(fr *evalFrame, start *ssa.BasicBlock, stop func(b 
 					ev.onMapUpdate(fr, x, k, v, ok1 && ok2)
 				}
 			case *ssa.Store:
+				if ev.onStore != nil {
+					sv, sok := ev.eval(fr, x.Val, 0)
+					ev.onStore(fr, x, sv, sok)
+				}
 				if fa, isField := x.Addr.(*ssa.FieldAddr); isField {
 					if fr.mem == nil {
 						fr.mem = map[memKey]interface{}{}
@@ -1543,7 +1549,7 @@ func (ev *evaluator) runCountedFrame(fr0 *evalFrame, maxIter int) ([]interface{}
 	}
 	scalar := func(v interface{}) bool {
 		switch v.(type) {
-		case int64, string, bool, absPtr, float64, absStruct, absArray:
+		case int64, string, bool, absPtr, float64, absStruct, absArray, absDate, absWeek, absOpaque:
 			return true
 		}
 		return false
@@ -1557,7 +1563,8 @@ func (ev *evaluator) runCountedFrame(fr0 *evalFrame, maxIter int) ([]interface{}
 		return res, outcome
 	}
 	budget := maxIter
-	for {
+	var iter func(cur *evalFrame, header *ssa.BasicBlock, depth int) ([]interface{}, string, *evalFrame, *ssa.BasicBlock)
+	iter = func(cur *evalFrame, header *ssa.BasicBlock, depth int) ([]interface{}, string, *evalFrame, *ssa.BasicBlock) {
 		// iterate the loop at header, entered with the frame cur (whose phiFrom[header] is the entry edge)
 		var phis []*ssa.Phi
 		for _, ins := range header.Instrs {
@@ -1572,18 +1579,16 @@ func (ev *evaluator) runCountedFrame(fr0 *evalFrame, maxIter int) ([]interface{}
 			c0, ok := ev.eval(cur, phi, 0)
 			if !ok || !scalar(c0) {
 				ev.setFail("the entry value of a loop-carried value of " + fname(fn) + " is not an evaluable scalar")
-				return nil, "fail"
+				return nil, "fail", nil, nil
 			}
 			state[phi] = c0
 		}
 		body := loopBlocks(header)
 		carried := cur.mem
-		var next *ssa.BasicBlock
-		var nextFrame *evalFrame
 		for n := 0; ; n++ {
 			if budget--; budget < 0 {
 				ev.setFail("a loop of " + fname(fn) + " does not end within the iteration budget")
-				return nil, "fail"
+				return nil, "fail", nil, nil
 			}
 			fr := &evalFrame{fn: fn, parent: cur.parent, call: cur.call, phiFrom: map[*ssa.BasicBlock]*ssa.BasicBlock{}, vals: map[ssa.Value]interface{}{}}
 			for k, p := range cur.phiFrom {
@@ -1617,7 +1622,7 @@ func (ev *evaluator) runCountedFrame(fr0 *evalFrame, maxIter int) ([]interface{}
 				str, isS := sv.(string)
 				if !ok || !isS {
 					ev.setFail("the string ranged over in " + fname(fn) + " is not evaluable")
-					return nil, "fail"
+					return nil, "fail", nil, nil
 				}
 				i := 0
 				tuple := []interface{}{false, int64(0), int64(0)}
@@ -1633,15 +1638,23 @@ func (ev *evaluator) runCountedFrame(fr0 *evalFrame, maxIter int) ([]interface{}
 			res, outcome := ev.runFrame(fr, header, stopAtHeader)
 			h2 := atHeader(outcome)
 			if h2 == nil {
-				return res, outcome
+				return res, outcome, nil, nil
+			}
+			// a loop inside this one, met during this iteration: iterated in its turn, the walk of this iteration
+			// goes on from where it is left
+			for h2 != header && body[h2] {
+				if depth > 3 {
+					ev.setFail("loops nested too deeply in " + fname(fn))
+					return nil, "fail", nil, nil
+				}
+				r2, o2, f2, h3 := iter(fr, h2, depth+1)
+				if h3 == nil {
+					return r2, o2, nil, nil
+				}
+				fr, h2 = f2, h3
 			}
 			if h2 != header {
-				if body[h2] {
-					ev.setFail("nested loops in " + fname(fn))
-					return nil, "fail"
-				}
-				next, nextFrame = h2, fr // the loop was left and the walk reached the next loop
-				break
+				return nil, "", fr, h2 // the loop was left and the walk reached the next loop
 			}
 			carried = fr.mem // local variables, builders and fields written so far
 			latch := fr.phiFrom[header]
@@ -1654,24 +1667,32 @@ func (ev *evaluator) runCountedFrame(fr0 *evalFrame, maxIter int) ([]interface{}
 			}
 			if idx < 0 {
 				ev.setFail("the back edge of a loop of " + fname(fn) + " was not found")
-				return nil, "fail"
+				return nil, "fail", nil, nil
 			}
 			nextState := map[*ssa.Phi]interface{}{}
 			for _, phi := range phis {
 				v, ok := ev.eval(fr, phi.Edges[idx], 0)
 				if !ok && ev.panicked {
-					return nil, "panic"
+					return nil, "panic", nil, nil
 				}
 				if !ok || !scalar(v) {
 					ev.setFail("a loop-carried value of " + fname(fn) + " is not an evaluable scalar")
-					return nil, "fail"
+					return nil, "fail", nil, nil
 				}
 				nextState[phi] = v
 			}
 			state = nextState
 		}
-		cur, header = nextFrame, next
 	}
+	for header != nil {
+		var r2 []interface{}
+		var o2 string
+		r2, o2, cur, header = iter(cur, header, 0)
+		if header == nil {
+			return r2, o2
+		}
+	}
+	return nil, "fail"
 }
 
 // runCallee reads an inlined library callee: loop-free ones by the walker, and (when ev.counted is set)
@@ -1681,8 +1702,34 @@ func (ev *evaluator) runCallee(callee *ssa.Function, fr *evalFrame, call *ssa.Ca
 }
 
 // localArrayOf: v is a local array written as a literal, or a slice of one ([]T{...} is `new [N]T` sliced whole).
+// wholeSlice: a[:] or a[0:len(a)] of an array (what make([]T, const) compiles to).
+func wholeSlice(sl *ssa.Slice) bool {
+	if sl.Max != nil {
+		return false
+	}
+	if sl.Low != nil {
+		if k, ok := constInt(sl.Low); !ok || k != 0 {
+			return false
+		}
+	}
+	if sl.High != nil {
+		pt, ok := sl.X.Type().Underlying().(*types.Pointer)
+		if !ok {
+			return false
+		}
+		at, ok := pt.Elem().Underlying().(*types.Array)
+		if !ok {
+			return false
+		}
+		if k, ok := constInt(sl.High); !ok || k != at.Len() {
+			return false
+		}
+	}
+	return true
+}
+
 func localArrayOf(v ssa.Value) (*ssa.Alloc, bool) {
-	if sl, ok := v.(*ssa.Slice); ok && sl.Low == nil && sl.High == nil {
+	if sl, ok := v.(*ssa.Slice); ok && wholeSlice(sl) {
 		v = sl.X
 	}
 	al, ok := v.(*ssa.Alloc)
@@ -1720,6 +1767,39 @@ func (ev *evaluator) localElem(fr *evalFrame, ia *ssa.IndexAddr, field int, dept
 				iv, ok := ev.eval(fr, ia.Index, depth+1)
 				if !ok {
 					return nil, false
+				}
+				// an array the caller fills as it goes (the walker's memory of the caller's frame), else a literal
+				if ofr.mem != nil {
+					if cur, ok := ofr.mem[memKey{oal, cellField}]; ok {
+						if arr, isArr := cur.(absArray); isArr {
+							i, isI := iv.(int64)
+							if !isI {
+								return nil, false
+							}
+							n := arr.t.Underlying().(*types.Array).Len()
+							if i < 0 || i >= n {
+								ev.panicked = true
+								return nil, false
+							}
+							e, has := arr.e[i]
+							if !has {
+								return zeroValue(arr.t.Underlying().(*types.Array).Elem())
+							}
+							if field >= 0 {
+								if st, isSt := e.(absStruct); isSt {
+									if fv, ok := st.f[field]; ok {
+										return fv, true
+									}
+								}
+								return nil, false
+							}
+							if _, unknown := e.(unknownValue); unknown {
+								return nil, false
+							}
+							return e, true
+						}
+						return nil, false
+					}
 				}
 				return ev.localElemAt(ofr, oal, iv, field, depth)
 			}
@@ -1873,7 +1953,7 @@ func localPath(addr ssa.Value) (*ssa.Alloc, []pathStep) {
 			if _, isArr := x.X.Type().Underlying().(*types.Pointer); !isArr {
 				// an element of a slice: a local aggregate only when the slice is a whole local array ([]T{...})
 				sl, isSl := x.X.(*ssa.Slice)
-				if !isSl || sl.Low != nil || sl.High != nil {
+				if !isSl || !wholeSlice(sl) {
 					return nil, nil
 				}
 				steps = append(steps, pathStep{field: -1, index: x.Index})
